@@ -369,7 +369,7 @@ def run(ctx):
                 stats[k] = stats.get(k, 0) + v
             if ctx.expired():
                 ctx.incomplete('deadline hit after %d of %d tasks' % (done, len(tasks)))
-                pool.pool.terminate()
+                pool.cancel()
                 break
     finally:
         pool.close()
